@@ -5,6 +5,7 @@ package backend
 import (
 	proto "github.com/kubewharf/kubebrain-client/api/v2rpc"
 
+	"github.com/kubewharf/kubebrain/pkg/backend/tso"
 	"github.com/kubewharf/kubebrain/pkg/zzmodel"
 	"github.com/kubewharf/kubebrain/pkg/zzverif"
 )
@@ -109,6 +110,62 @@ func VerifC17Expiry() {
 			zzverif.Assert(resp.Kv.Revision == newest.Rev, "an Event that is kept reads unchanged")
 			zzverif.Cover("old-event-kept-ttl-not-elapsed")
 		}
+	}
+	zzverif.Cover("done")
+}
+
+// VerifC17Race: time-based expiry of an Event racing an update of that Event (the expiry decision
+// is taken from the scan's snapshot): an Event whose newest change is younger than the TTL is
+// never removed, and index and versions stay together — afterwards the key either is wholly gone
+// or accepts an update naming its latest revision and refuses a second create.
+func VerifC17Race() {
+	saved := vNames
+	vNames = vEventNames
+	defer func() { vNames = saved }()
+	eventsTTL = 1 // seconds; natively the harness really waits (FireTickers sleeps longer than this)
+	w := vNewWorldTSO(1, func(t tso.TSO) tso.TSO { return &vYieldTSO{t} })
+	w.s.TTLSupported = false
+	w.vScenario(1) // an Event with two versions
+	key := vNames[0]
+	ok1, _ := w.compact(0)
+	zzverif.Assert(ok1, "first compaction (leaves the mark)")
+	zzverif.AdvanceClock()
+	zzverif.FireTickers()
+	cur, _ := w.g.At(key, 0)
+	req := &vReq{kind: 1, key: key, val: zzverif.Bytes("wr.val", 1), exp: cur.Rev}
+	w.s.Yield = zzverif.YieldAt
+	done := make(chan struct{}, 2)
+	zzverif.ExploreSchedules(zzverif.Param("preempt", 2))
+	zzverif.Go("compactor", func() {
+		w.b.Compact(vCtx(), 0)
+		done <- struct{}{}
+	})
+	zzverif.Go("writer", func() {
+		w.issue(req)
+		done <- struct{}{}
+	})
+	<-done
+	<-done
+	zzverif.StopExploring()
+	w.s.Yield = nil
+	w.dealt++
+	zzverif.WaitIdle()
+	zzverif.Assert(!req.err, "racing update answered")
+	g, err := w.b.Get(vCtx(), &proto.GetRequest{Key: key})
+	zzverif.Assert(err == nil, "get: no error")
+	_, hasIdx := w.s.RawGet(w.b.coder.EncodeRevisionKey(key))
+	if req.ok {
+		zzverif.Cover("update-won")
+		// the Event was changed after the mark: it must survive, whole
+		zzverif.Assert(g.Kv != nil && g.Kv.Revision == req.rev, "an Event updated during the expiry scan is not removed")
+		zzverif.Assert(hasIdx, "index and versions stay together")
+		up, err := w.b.Update(vCtx(), &proto.UpdateRequest{Kv: &proto.KeyValue{Key: key, Value: []byte("z"), Revision: req.rev}})
+		zzverif.Assert(err == nil && up.Succeeded, "the surviving Event accepts an update naming its latest revision")
+		cr, err := w.b.Create(vCtx(), &proto.CreateRequest{Key: key, Value: []byte("y")})
+		zzverif.Assert(err == nil && !cr.Succeeded, "the surviving Event refuses a second create")
+	} else {
+		zzverif.Cover("expiry-won")
+		zzverif.Assert((g.Kv != nil) == hasIdx, "index and versions are removed together")
 	}
 	zzverif.Cover("done")
 }
